@@ -26,11 +26,13 @@ COMMON  := -g -fno-omit-frame-pointer -MMD -MP -pthread
 
 WRAP_FS   := fopen64 fopen fclose read write writev time open open64 close
 WRAP_GSL  := gsl_set_error_handler gsl_set_error_handler_off gsl_integration_qng
+# guarded tables (sim/guard_tables.cc): the interpolation tables of decay0_divdif re-homed into tight heap blocks, ASan flavour only
+WRAP_TAB  := _ZN8bxdecay013decay0_divdifEPKdS1_idi
 WRAP_PTH  := pthread_mutex_lock pthread_mutex_unlock pthread_mutex_trylock __cxa_guard_acquire __cxa_guard_release __cxa_guard_abort
 wrapflags = $(foreach s,$(1),-Wl,--wrap=$(s))
 
 LINK_plain := -static-libstdc++ $(call wrapflags,$(WRAP_FS) $(WRAP_GSL) $(WRAP_PTH))
-LINK_asan  := -static-libstdc++ $(call wrapflags,$(WRAP_FS) $(WRAP_GSL) $(WRAP_PTH))
+LINK_asan  := -static-libstdc++ $(call wrapflags,$(WRAP_FS) $(WRAP_GSL) $(WRAP_PTH) $(WRAP_TAB))
 LINK_tsan  := $(call wrapflags,$(WRAP_GSL) $(WRAP_PTH))
 
 SIM_SRCS := $(sort $(wildcard $(V)/sim/*.cc))
